@@ -2,7 +2,9 @@
 """Run every design-time mutant (mutants/candidates.py) and every seeded change (seeded/<id>/patch.diff) against the
 check of its property (quick tier) and write the detection table to MUTANTS.md.
 
-    tools/mutant_wave.py [--only C14,C18] [--tier quick]
+    tools/mutant_wave.py [--only C14,C18] [--tier quick] [--jobs 3]
+
+Seeded changes additionally get the outcome written into their meta.json (`coordinator_result`).
 """
 import json
 import os
@@ -44,14 +46,28 @@ def main():
         'C01c': 'neutralised by a later fix (see seeded/C01c/meta.json); caught at import time (59 new)',
     }
     rows = []
-    for pid, name, arg, what in jobs:
-        if pid not in claimed or (only and pid not in only):
-            continue
+    njobs = int(sys.argv[sys.argv.index('--jobs') + 1]) if '--jobs' in sys.argv else 1
+    head = subprocess.run(['git', '-C', '/repo', 'rev-parse', '--short', 'HEAD'], capture_output=True, text=True).stdout.strip()
+
+    def one(job):
+        pid, name, arg, what = job
         r = subprocess.run([os.path.join(HERE, 'tools', 'run_mutant.py'), arg, pid, '--tier', tier], capture_output=True, text=True)
         m = re.search(r'exit (\d+)', r.stdout)
         new = re.search(r'new=(\d+)', r.stdout)
-        rows.append((pid, name, what + ((' -- NOTE: ' + NOTES[name]) if name in NOTES else ''), m.group(1) if m else '?', new.group(1) if new else '?'))
-        print(rows[-1], flush=True)
+        row = (pid, name, what + ((' -- NOTE: ' + NOTES[name]) if name in NOTES else ''), m.group(1) if m else '?', new.group(1) if new else '?')
+        print(row, flush=True)
+        mp = os.path.join(sd, name, 'meta.json')
+        if os.path.exists(mp) and row[3] in ('0', '1'):
+            meta = json.load(open(mp))
+            meta['coordinator_result'] = {'check': pid, 'tier': tier, 'repo_head': head,
+                                          'result': 'caught' if row[3] == '1' else 'missed', 'new_violations': row[4]}
+            json.dump(meta, open(mp, 'w'), indent=1, ensure_ascii=False)
+        return row
+
+    from concurrent.futures import ThreadPoolExecutor
+    todo = [j for j in jobs if j[0] in claimed and not (only and j[0] not in only)]
+    with ThreadPoolExecutor(max_workers=njobs) as ex:
+        rows = list(ex.map(one, todo))
     path = os.path.join(HERE, 'MUTANTS.md')
     old_rows = {}
     if os.path.exists(path):
